@@ -131,11 +131,13 @@ func NewWorld(tag string, K, variant int) *World {
 			pos = uint64(20000 * (i % 3))
 		}
 		w.InitPos = append(w.InitPos, pos)
-		v.Peers = append(v.Peers, &config.VBFTPeerStakeInfo{Index: uint32(i + 1), PeerPubkey: w.Nodes[i].PK, Address: w.Owners[i].Addr().ToBase58(), InitPos: pos})
+		v.Peers = append(v.Peers, &config.VBFTPeerStakeInfo{Index: uint32(i + 1), PeerPubkey: w.Nodes[i].PK, Address: b58(w.Owners[i].Addr()), InitPos: pos})
 	}
 	w.VBFT = v
 	return w
 }
+
+func b58(a common.Address) string { return a.ToBase58() }
 
 func (w *World) AllActors() []*Actor {
 	l := []*Actor{w.BK}
